@@ -428,6 +428,17 @@ func sameObs(a, b []string) bool {
 	return true
 }
 
+// nativeOnlyKnown: does a known finding of this property cover the assertion id for this job?
+func (c *Ctx) nativeOnlyKnown(j Job, assertID string) bool {
+	known, _ := LoadKnown()
+	for _, k := range known {
+		if k.Kind == "known" && k.Property == c.Property && k.Job != "" && strings.HasPrefix(j.Name, k.Job) && k.AssertID != "" && k.AssertID == assertID {
+			return true
+		}
+	}
+	return false
+}
+
 // ValidatePaths replays every kept path witness natively and compares outcomes
 // (translation validation of the engine), and confirms violation candidates.
 func (c *Ctx) ValidatePaths(jr *JobResult) {
@@ -449,6 +460,12 @@ func (c *Ctx) ValidatePaths(jr *JobResult) {
 				}
 				if ok && p.Status == "panic" {
 					ok = panicMsgMatch(p.Msg, r.Msg)
+				}
+				if !ok && p.Status == "ok" && r.Status == "assert-fail" && c.nativeOnlyKnown(j, r.Msg) {
+					// a listed finding that shows natively on EVERY run of this job (e.g. a result that
+					// varies between builds of one process) is not a disagreement about this path
+					jr.Validated++
+					continue
 				}
 				if ok {
 					jr.Validated++
@@ -532,8 +549,11 @@ type KnownFinding struct {
 	Site     string `json:"site,omitempty"`   // substring of the engine site (function@file:line)
 	AssertID string `json:"assert_id,omitempty"`
 	MsgHas   string `json:"msg_has,omitempty"`
-	What     string `json:"what"`
-	Commit   string `json:"commit,omitempty"`
+	// Inputs: every listed symbolic input of the witness must have one of the listed values
+	// (the specific input that fails), e.g. {"place": [15], "notation": [5, 7]}
+	Inputs map[string][]uint64 `json:"inputs,omitempty"`
+	What   string              `json:"what"`
+	Commit string              `json:"commit,omitempty"`
 }
 
 func LoadKnown() ([]KnownFinding, error) {
@@ -571,6 +591,21 @@ func (k *KnownFinding) Matches(c *Candidate) bool {
 	}
 	if k.MsgHas != "" && !strings.Contains(c.Msg, k.MsgHas) {
 		return false
+	}
+	for name, allowed := range k.Inputs {
+		v, ok := c.Inputs[name]
+		if !ok {
+			return false
+		}
+		found := false
+		for _, a := range allowed {
+			if a == v {
+				found = true
+			}
+		}
+		if !found {
+			return false
+		}
 	}
 	return true
 }
